@@ -149,6 +149,33 @@ fn main() {
         n += 1;
         if let Ok(b) = bool::try_from_term(lit("true", dt)) { fail(format!("bool::try_from_term(\"true\"^^{}) succeeds with {}", dt, b)); }
     }
+    // conversions never panic, whatever the datatype IRI: non-ASCII IRIs of the same byte lengths as the XSD datatype
+    // IRIs (36..=44 bytes), with a multi-byte character at every offset from the end; and they fail (wrong datatype)
+    {
+        let mut dts: Vec<String> = vec![];
+        for total in 34..=46usize { for ch in ["\u{e9}", "\u{6574}", "\u{10400}"] { for tail in 0..12usize {
+            let clen = ch.len();
+            if total < 9 + clen + tail { continue; }
+            let head = total - clen - tail;
+            let mut s = String::from("http://e/");
+            while s.len() < head { s.push('a'); }
+            if s.len() != head { continue; }
+            s.push_str(ch);
+            for _ in 0..tail { s.push('z'); }
+            dts.push(s);
+        }}}
+        for dt in &dts {
+            n += 1;
+            let t = lit("1", dt);
+            let r = std::panic::catch_unwind(|| {
+                (i32::try_from_term(t.clone()).is_ok(), isize::try_from_term(t.clone()).is_ok(), usize::try_from_term(t.clone()).is_ok(), f64::try_from_term(t.clone()).is_ok(), bool::try_from_term(lit("true", dt)).is_ok())
+            });
+            match r {
+                Err(_) => fail(format!("try_from_term panics on a literal with datatype <{}> ({} bytes)", dt, dt.len())),
+                Ok(flags) => if flags != (false, false, false, false, false) { fail(format!("try_from_term succeeds on a literal with the foreign datatype <{}>: {:?}", dt, flags)); },
+            }
+        }
+    }
     // short lexical forms
     let alpha = [b'0', b'1', b'9', b'+', b'-', b' ', b'a', b'.'];
     for a in alpha { for b in alpha { for len in 0..=2usize {
